@@ -286,7 +286,7 @@ class History:
                 ctx.close('step.orthonormalize-factor', abs(float(nrm) - np.linalg.norm(o.shadow)), 1e-9 * max(1, np.linalg.norm(o.shadow)), 'MPO factor != Frobenius norm', detail)
                 o.shadow = o.shadow / float(nrm) if nz and nrm > 0 else refs.dense_operator(o.obj.A)
         elif op == 'mpo-new':
-            which = str(rng.choice(['model', 'identity', 'opgraph', 'fill', 'charged-boundary', 'charge-diagonal', 'charge-diagonal']))
+            which = str(rng.choice(['model', 'identity', 'opgraph', 'fill', 'charged-boundary', 'charge-diagonal', 'charge-diagonal', 'open-segment']))
             if which == 'model' or (which == 'opgraph' and self.name != 'xxz'):
                 r = gen.model(self.name, self.L, gen.generic_params(rng))
                 herm = True
@@ -301,6 +301,17 @@ class History:
                 r = ptn.MPO(self.qd, [np.zeros(1, dtype=int)] + [np.zeros(int(rng.integers(2, 6)), dtype=int) for _ in range(self.L - 1)] + [np.zeros(1, dtype=int)],
                             fill='random', rng=np.random.default_rng(int(rng.integers(0, 2 ** 31))))
                 herm = False
+            elif which == 'open-segment':
+                # chain segment: first and last bond of dimension 2..3 with arbitrary labels (allowed by the MPO constructor); not tracked densely
+                diffs = np.unique(np.subtract.outer(self.qd, self.qd))
+                r = gen.rand_mpo(rng, self.qd, self.L, Dmax=2, kind='complex',
+                                 open_bonds=(rng.choice(diffs, size=int(rng.integers(2, 4))), rng.choice(diffs, size=int(rng.integers(2, 4)))))
+                herm = False
+                self.hist.append('mpo-new-open-segment')
+                n = Obj('mpo', r, None, 'q')
+                n.hermitian = False
+                self.add(n)
+                return True
             elif which == 'charged-boundary':
                 # operator with NON-ZERO quantum numbers on its dummy boundary bonds (like linear_fermionic_mpo), charge changing
                 diffs = np.unique(np.subtract.outer(self.qd, self.qd))
